@@ -7,7 +7,8 @@
 (*   Start     - look at the cache (absent / whole profile / unreadable)   *)
 (*   Exchange  - ask the server with the date of the profile held; the     *)
 (*               server answers: newer profile, the same / an older one,   *)
-(*               "up to date", an error status, garbage, or the transport  *)
+(*               "up to date", an error status, garbage, a well-formed but  *)
+(*               invalid profile, or the transport                         *)
 (*               fails                                                     *)
 (*   Decide    - success with the cached profile, failure, or go on to     *)
 (*               store the profile received                                *)
@@ -52,7 +53,7 @@ ServerBump(s) == /\ srvdt[s] < MaxDt /\ srvdt' = [srvdt EXCEPT ![s] = @ + 1]
 Exchange(c) ==
   /\ pc[c] = "ready"
   /\ LET s == SrvOf[c] IN
-     \E kind \in {"newer", "uptodate", "older", "error", "garbage", "neterr"} : \E ln \in 1..2 :
+     \E kind \in {"newer", "uptodate", "older", "error", "garbage", "invalid", "neterr"} : \E ln \in 1..2 :
        /\ (kind = "older" => srvdt[s] > 1)
        /\ (kind = "uptodate" => held[c] # None)       \* a server says "up to date" only to a client that named a date
        /\ LET p == CASE kind = "newer" -> [srv |-> s, dt |-> srvdt[s], len |-> ln]
